@@ -22,7 +22,7 @@ func seedfixC04(c *Ctx) {
 		}
 		var param *ssa.Parameter
 		for _, p := range fn.Params {
-			if p.Name() == "requestID" {
+			if u.VarName(p) == "requestID" {
 				param = p
 			}
 		}
